@@ -355,7 +355,8 @@ Definition add_guard (s : state) : bool :=
 (* a name given to doAddFile: it exists (as a file or as an entry), and an untracked file is not ignored *)
 Definition name_ok (s : state) (q : path) : bool :=
   match find_i (st_index s) q, find_w (st_wt s) q with
-  | None, Some f => negb (wf_ignored f) && negb (wf_ignored_git f)
+  | None, Some f => (negb (wf_ignored f) && negb (wf_ignored_git f)) ||
+                    (wf_ignored f && wf_ignored_git f && is_some (left_change s q))
   | None, None => is_some (left_change s q)
   | _, _ => true
   end.
@@ -446,14 +447,20 @@ Proof.
     assert (R : right_change s q = Some Del) by (unfold right_change; rewrite Ei, Ew; reflexivity).
     rewrite R. destruct (left_change s q); cbn [negb];
       rewrite (noconf_not_below s q e G2 Ei), (noconf_not_dir s q e G2 Ei); cbn [is_aerr after1 option_map]; split; reflexivity.
-  - (* untracked file, not ignored *)
+  - (* untracked file: not ignored, or ignored with a staged deletion (Worktree = Unmodified) *)
     pose proof (find_w_path _ _ _ Ew) as Pf.
-    apply andb_true_iff in Hn as [Hn1 Hn2]. apply negb_true_iff in Hn1, Hn2.
-    assert (R : right_change s q = Some Ins).
-    { unfold right_change. rewrite Ei, Ew. unfold wt_visible. rewrite Pf, Ei, Hn1. reflexivity. }
-    assert (Sk : git_skips s f = false) by (unfold git_skips; now rewrite Hn2, andb_false_r).
-    rewrite R, Sk. destruct (left_change s q); cbn [negb is_aerr after1 option_map];
-      (split; [reflexivity|]; f_equal; now apply entry_of_file_sem).
+    apply orb_true_iff in Hn as [Hn|Hn].
+    + apply andb_true_iff in Hn as [Hn1 Hn2]. apply negb_true_iff in Hn1, Hn2.
+      assert (R : right_change s q = Some Ins).
+      { unfold right_change. rewrite Ei, Ew. unfold wt_visible. rewrite Pf, Ei, Hn1. reflexivity. }
+      assert (Sk : git_skips s f = false) by (unfold git_skips; now rewrite Hn2, andb_false_r).
+      rewrite R, Sk. destruct (left_change s q); cbn [negb is_aerr after1 option_map];
+        (split; [reflexivity|]; f_equal; now apply entry_of_file_sem).
+    + apply andb_true_iff in Hn as [Hn Hn3]. apply andb_true_iff in Hn as [Hn1 Hn2].
+      assert (R : right_change s q = None).
+      { unfold right_change. rewrite Ei, Ew. unfold wt_visible. rewrite Pf, Ei, Hn1. reflexivity. }
+      assert (Sk : git_skips s f = true) by (unfold git_skips; now rewrite Pf, Ei, Hn2).
+      rewrite R, Sk. destruct (left_change s q); [|discriminate]. cbn [negb is_aerr after1 option_map]. split; reflexivity.
   - (* neither: a staged deletion, Worktree = Unmodified *)
     assert (R : right_change s q = None) by (unfold right_change; rewrite Ei, Ew; reflexivity).
     rewrite R. destruct (left_change s q); [|discriminate]. cbn [is_aerr after1 option_map]. split; reflexivity.
